@@ -3,7 +3,7 @@
 Bounded-exhaustive enumeration of short histories on the real connection:
 the full product of direction (request received by a server / response
 received by a client), request method (GET, HEAD, HEAD followed by request
-trailers, POST), response status (200, 204, 304, 100-then-200, 100-then-204),
+trailers, POST), response status (200, 204, 304, 205, 404, 100-then-200, 100-then-204),
 content-length (absent, 0, 4, 5, on the 1xx only), DATA chunking with and
 without padding, and END_STREAM placement (HEADERS, last DATA, separate empty
 DATA, trailers).  Each history is delivered frame by frame to a clone of an
@@ -36,7 +36,7 @@ CHUNKINGS = [
 ]
 ES_PLACES = ["headers", "lastdata", "emptydata", "trailers"]
 CLS = [None, b"0", b"4", b"5"]
-ALPHABET = ("methods GET/HEAD/HEAD+trailers/POST; statuses 200/204/304/100->200/100->204; content-length absent/0/4/5 (and on the 1xx only); "
+ALPHABET = ("methods GET/HEAD/HEAD+trailers/POST; statuses 200/204/304/205/404/100->200/100->204; content-length absent/0/4/5 (and on the 1xx only); "
             "chunkings %s; END_STREAM on %s" % ([c[0] for c in CHUNKINGS], ES_PLACES))
 BOUNDS = {"quick": "full product (both directions) x {plain, header_encoding=utf-8, a PUSH_PROMISE for the other kind of method before the response, a content-length field in the trailers, a refused second send_headers with the other kind of method}", "thorough": "full product, additionally with a second concurrent stream in flight and every 2-frame batching of the history"}
 
@@ -54,7 +54,7 @@ def build_cases(tier):
                 cases.append(("A", method, None, cl, None, cn, esp))
     # direction B: response received by a client
     for method in (b"GET", b"HEAD", b"HEAD+T", b"POST"):
-        for status in ("200", "204", "304", "100-200", "100-204"):
+        for status in ("200", "204", "304", "100-200", "100-204", "205", "404"):     # 205 and 404: ordinary statuses as far as 8.1.2.6 goes
             cl_opts = [(cl, None) for cl in CLS]
             if status.startswith("100"):
                 cl_opts.append((None, b"5"))    # content-length on the 1xx only
